@@ -914,6 +914,12 @@ func (p *Program) containerUses(fn *ssa.Function, v ssa.Value, base ssa.Value, d
 				// a lazy iterator over the container: the container is read where the iterator is
 				// consumed; an iterator that is kept or handed on is an alias
 				out = append(out, seqUses(fn, call, base, derived)...)
+			case plain && p.containerPassedToHelper(y, v, base) != nil:
+				// handed to an unexported, only statically called helper together with the guarded
+				// struct (an extracted block): the helper's accesses through the parameter are accesses
+				// of the container, judged where they happen (the lock is inherited from the callers)
+				hp := p.containerPassedToHelper(y, v, base)
+				out = append(out, p.containerUses(hp.fn, hp.container, hp.base, derived, depth+1, seen)...)
 			default:
 				add(y, "escape", false)
 			}
@@ -922,6 +928,39 @@ func (p *Program) containerUses(fn *ssa.Function, v ssa.Value, base ssa.Value, d
 		}
 	}
 	return out
+}
+
+type helperContainerParam struct {
+	fn              *ssa.Function
+	container, base ssa.Value
+}
+
+// containerPassedToHelper: call passes the guarded container v exactly once, and the struct that
+// guards it (base), as arguments to an inlinable helper; returns the helper's parameters for both.
+func (p *Program) containerPassedToHelper(call ssa.CallInstruction, v, base ssa.Value) *helperContainerParam {
+	cc := call.Common()
+	h := staticCallee(cc)
+	if h == nil || base == nil || cc.IsInvoke() || !p.inlinable(h) || h == call.Parent() {
+		return nil
+	}
+	ci, bi := -1, -1
+	for i, a := range cc.Args {
+		if i >= len(h.Params) {
+			return nil
+		}
+		if a == v {
+			if ci >= 0 {
+				return nil
+			}
+			ci = i
+		} else if bi < 0 && p.sameValue(a, base) {
+			bi = i
+		}
+	}
+	if ci < 0 || bi < 0 {
+		return nil
+	}
+	return &helperContainerParam{fn: h, container: h.Params[ci], base: h.Params[bi]}
 }
 
 // stdContainerReaders: generic standard-library functions that only read their container arguments
